@@ -34,7 +34,7 @@ def strat_models(draw, tier, models=None):
     model = draw(st.sampled_from(models or MODELS))
     case = dict(table=table, alts=alts, model=model,
                 utils=draw(mc.utilities(info, alts, BETA_POOL)),
-                av=draw(mc.availabilities(info, alts)), nests=None, mu=None, log_gi=None,
+                av=draw(mc.availabilities(info, alts, table)), nests=None, mu=None, log_gi=None,
                 shift=draw(st.one_of(gen.dyadic(-30, 30), st.floats(-30, 30).map(lambda x: round(x, 2)))),
                 tuple_syntax=draw(st.booleans()), np_seed=0)
     case['av_order'] = list(draw(st.permutations(alts))) if draw(st.booleans()) else None
